@@ -11,6 +11,7 @@ import (
 
 	"verifharness/checks"
 	"verifharness/mc"
+	"verifharness/sim"
 )
 
 func usage() {
@@ -63,6 +64,9 @@ func main() {
 			}()
 			c.Run(r)
 		}()
+		if n := sim.DeadlineRetries.Load(); n > 0 {
+			r.Extra["proposal_rounds_repeated_after_wall_clock_deadline"] = n
+		}
 		code := r.Finish()
 		pprof.StopCPUProfile()
 		os.Exit(code)
